@@ -132,3 +132,31 @@ __CPROVER_assigns(L(layout)->D[i][j], L(layout)->G[i][j], L(layout)->minD)
 ;
 void h_cpl_pair(void) { void *l; unsigned i, j; w_cpl_pair_body(l, i, j); VERIF_CANARY; }
 #endif
+
+/* ------------------------------------------------------------ dijkstra: the relaxation step (loop-body fragment, unbounded) */
+#if defined(JOB_relax)
+/* For ONE arbitrary neighbour v of the extracted node u (edge weight w): after the step d[v] <= d[u] + w (if u is reachable),
+ * d[v] never increases, and it changes only to d[u] + w with u recorded as predecessor.  This is the invariant Dijkstra's
+ * correctness rests on; the pairing heap (decreaseKey) stays behind an assumed frame contract.  T = long long (the template
+ * is generic), sentinel 2^40. */
+#define RMAX (1LL << 40)
+struct PACKED SNode { unsigned id; long long d; void *p; struct vec neighbours; struct vec nweights; void *qnode; };
+#define NN(p) ((struct SNode *)(p))
+void w_decreaseKey(void *heap, void *qnode, void *val)
+__CPROVER_requires(1) __CPROVER_ensures(1) __CPROVER_assigns()
+;
+#define NBR(u, i) (((void **)NN(u)->neighbours.d)[i])
+#define WGT(u, i) (((long long *)NN(u)->nweights.d)[i])
+void w_relax(void *u, unsigned i, void *heap)
+__CPROVER_requires(__CPROVER_is_fresh(u, sizeof(struct SNode)))
+__CPROVER_requires(NN(u)->neighbours.n >= 1 && NN(u)->neighbours.n <= 1000000 && NN(u)->nweights.n == NN(u)->neighbours.n && i < NN(u)->neighbours.n)
+__CPROVER_requires(__CPROVER_is_fresh(NN(u)->neighbours.d, NN(u)->neighbours.n * sizeof(void *)) && __CPROVER_is_fresh(NN(u)->nweights.d, NN(u)->nweights.n * sizeof(long long)))
+__CPROVER_requires(__CPROVER_is_fresh(NBR(u, i), sizeof(struct SNode)))                 /* a neighbour other than u itself */
+__CPROVER_requires(NN(u)->d >= 0 && NN(u)->d <= RMAX && NN(NBR(u, i))->d >= 0 && NN(NBR(u, i))->d <= RMAX && WGT(u, i) >= 0 && WGT(u, i) <= 1048576)
+__CPROVER_ensures(NN(NBR(u, i))->d <= __CPROVER_old(NN(NBR(u, i))->d))
+__CPROVER_ensures(NN(u)->d != RMAX ==> NN(NBR(u, i))->d <= NN(u)->d + WGT(u, i))
+__CPROVER_ensures(NN(NBR(u, i))->d == __CPROVER_old(NN(NBR(u, i))->d) || (NN(NBR(u, i))->d == NN(u)->d + WGT(u, i) && NN(NBR(u, i))->p == u))
+__CPROVER_assigns(NN(NBR(u, i))->d, NN(NBR(u, i))->p)
+;
+void h_relax(void) { void *u, *heap; unsigned i; w_relax(u, i, heap); VERIF_CANARY; }
+#endif
